@@ -173,11 +173,16 @@ def _select(pid, obs, tier):
 
 def obligations(tier):
     obs = []
+    seen = set()
     for mod in SOURCES:
         m = importlib.import_module(f"vt.props.{mod}")
         src = [ob for ob in m.obligations(tier) if type(ob) is GOb and ob.raises is None and ob.post is not None
                and not (tier != "quick" and ("CP_PLSR.transform" in ob.function or (ob.instance.get("order", 0) >= 4 and ":non_negative" in ob.function)))]
         for ob in _select(mod, src, tier):
+            key = ob.name.split("/", 1)[1]   # (a call site one property re-discharges from another - C10 from C11 and C13, C20 from C04 - is re-run once)
+            if key in seen:
+                continue
+            seen.add(key)
             obs.append(wrap(ob, True))
             if tier != "quick":
                 obs.append(wrap(ob, False))
